@@ -43,7 +43,7 @@ func ruleClientClosed(c *Ctx, dv *dev, rule string) {
 		c.Undec(rule, key, pos, "no call returning (*openrgb.Client, error) in handleOpenrgb")
 		return
 	}
-	closesClient := func(in ssa.Instruction) bool {
+	closesClient := func(in ssa.Instruction, holds map[ssa.Value]bool, cells map[ssa.Value]bool) bool {
 		var cc *ssa.CallCommon
 		switch x := in.(type) {
 		case *ssa.Call:
@@ -57,15 +57,21 @@ func ruleClientClosed(c *Ctx, dv *dev, rule string) {
 			return callee != nil && callee.Name() == "Close" && callee.Signature.Recv() != nil && isClient(callee.Signature.Recv().Type())
 		}
 		if isClose(cc.StaticCallee()) {
-			return true
+			// the client closed must be the one this exploration follows: `old.Close(); c = fresh` closes another one, and a
+			// `defer c.Close()` registered before a re-dial stays bound to the client of that time
+			return len(cc.Args) > 0 && holds[cc.Args[0]]
 		}
-		// defer func() { ...; c.Close() }()
+		// defer func() { ...; c.Close() }(): closes whatever the captured variable holds when the function ends
 		if mc, ok := cc.Value.(*ssa.MakeClosure); ok {
 			if cl, ok := mc.Fn.(*ssa.Function); ok {
 				for _, b := range cl.Blocks {
 					for _, i2 := range b.Instrs {
 						if call, ok := i2.(*ssa.Call); ok && isClose(call.Call.StaticCallee()) {
-							return true
+							for _, bnd := range mc.Bindings {
+								if cells[bnd] || cellEverHolds(bnd, holds) {
+									return true
+								}
+							}
 						}
 					}
 				}
@@ -83,6 +89,8 @@ func ruleClientClosed(c *Ctx, dv *dev, rule string) {
 		nilVals string
 		known   map[ssa.Value]bool
 		bools   map[ssa.Value]bool // boolean values whose truth is known on the path (`connecting = err != nil` with err known nil)
+		holds   map[ssa.Value]bool // SSA values that are the client acquired by the call being followed
+		cells   map[ssa.Value]bool // local variables currently holding it
 	}
 	keyOf := func(m map[ssa.Value]bool) string {
 		var s []string
@@ -106,7 +114,7 @@ func ruleClientClosed(c *Ctx, dv *dev, rule string) {
 		}
 		// explore from the instruction after the acquiring call, state OPEN, errVal known nil
 		seen := map[string]bool{}
-		start := state{b: acq.Block(), known: map[ssa.Value]bool{errVal: true}, bools: map[ssa.Value]bool{}}
+		start := state{b: acq.Block(), known: map[ssa.Value]bool{errVal: true}, bools: map[ssa.Value]bool{}, holds: map[ssa.Value]bool{}, cells: map[ssa.Value]bool{}}
 		for i, in := range acq.Block().Instrs {
 			if in == ssa.Instruction(acq) {
 				start.idx = i + 1
@@ -118,7 +126,7 @@ func ruleClientClosed(c *Ctx, dv *dev, rule string) {
 			st := work[len(work)-1]
 			work = work[:len(work)-1]
 			steps++
-			k := fmt.Sprintf("%d:%d:%s|%s", st.b.Index, st.idx, keyOf(st.known), boolKey(st.bools))
+			k := fmt.Sprintf("%d:%d:%s|%s|%s|%s", st.b.Index, st.idx, keyOf(st.known), boolKey(st.bools), keyOf(st.holds), keyOf(st.cells))
 			if seen[k] {
 				continue
 			}
@@ -126,9 +134,28 @@ func ruleClientClosed(c *Ctx, dv *dev, rule string) {
 			closed := false
 			for i := st.idx; i < len(st.b.Instrs) && !closed; i++ {
 				in := st.b.Instrs[i]
-				if closesClient(in) {
+				if closesClient(in, st.holds, st.cells) {
 					closed = true
 					break
+				}
+				// who holds the acquired client
+				switch y := in.(type) {
+				case *ssa.Extract:
+					if y.Tuple == ssa.Value(acq) && y.Index == 0 {
+						st.holds[y] = true
+					}
+				case *ssa.Store:
+					if _, isAlloc := y.Addr.(*ssa.Alloc); isAlloc {
+						if st.holds[y.Val] {
+							st.cells[y.Addr] = true
+						} else {
+							delete(st.cells, y.Addr)
+						}
+					}
+				case *ssa.UnOp:
+					if y.Op == token.MUL && st.cells[y.X] {
+						st.holds[y] = true
+					}
 				}
 				if in == ssa.Instruction(acq) {
 					closed = true // a new attempt: explored from its own start (the previous connection, if any, is lost: flagged below)
@@ -196,11 +223,11 @@ func ruleClientClosed(c *Ctx, dv *dev, rule string) {
 					}
 					for _, si := range next {
 						ns := enter(st.b, st.b.Succs[si], st.known)
-						work = append(work, state{b: ns.b, idx: ns.idx, known: ns.known, bools: enterBools(st.b, st.b.Succs[si], st.bools)})
+						work = append(work, state{b: ns.b, idx: ns.idx, known: ns.known, bools: enterBools(st.b, st.b.Succs[si], st.bools), holds: enterHolds(st.b, st.b.Succs[si], st.holds), cells: copySet(st.cells)})
 					}
 				case *ssa.Jump:
 					ns := enter(st.b, st.b.Succs[0], st.known)
-					work = append(work, state{b: ns.b, idx: ns.idx, known: ns.known, bools: enterBools(st.b, st.b.Succs[0], st.bools)})
+					work = append(work, state{b: ns.b, idx: ns.idx, known: ns.known, bools: enterBools(st.b, st.b.Succs[0], st.bools), holds: enterHolds(st.b, st.b.Succs[0], st.holds), cells: copySet(st.cells)})
 				}
 			}
 		}
@@ -294,4 +321,58 @@ func enterBools(pred, succ *ssa.BasicBlock, bools map[ssa.Value]bool) map[ssa.Va
 		}
 	}
 	return out
+}
+
+func copySet(m map[ssa.Value]bool) map[ssa.Value]bool {
+	out := map[ssa.Value]bool{}
+	for k, v := range m {
+		if v {
+			out[k] = true
+		}
+	}
+	return out
+}
+
+// enterHolds: the values holding the followed client on entering succ from pred (phis take their incoming value's status).
+func enterHolds(pred, succ *ssa.BasicBlock, holds map[ssa.Value]bool) map[ssa.Value]bool {
+	out := map[ssa.Value]bool{}
+	for v := range holds {
+		if in, ok := v.(ssa.Instruction); ok && in.Block() == succ {
+			if _, isPhi := v.(*ssa.Phi); isPhi {
+				continue
+			}
+		}
+		out[v] = true
+	}
+	pi := -1
+	for i, p := range succ.Preds {
+		if p == pred {
+			pi = i
+		}
+	}
+	for _, in := range succ.Instrs {
+		phi, ok := in.(*ssa.Phi)
+		if !ok {
+			break
+		}
+		if pi >= 0 && holds[phi.Edges[pi]] {
+			out[phi] = true
+		}
+	}
+	return out
+}
+
+// cellEverHolds: some store into the captured variable assigns a value that holds the followed client (the deferred
+// closure reads the variable when the function ends: it closes the client assigned last).
+func cellEverHolds(cell ssa.Value, holds map[ssa.Value]bool) bool {
+	refs := cell.Referrers()
+	if refs == nil {
+		return false
+	}
+	for _, r := range *refs {
+		if st, ok := r.(*ssa.Store); ok && st.Addr == cell && holds[st.Val] {
+			return true
+		}
+	}
+	return false
 }
